@@ -71,6 +71,15 @@ class StandardQTomographyBasedWeightedRelativeEntropy(WeightedRelativeEntropy):
             weights=weights,
         )
 
+    def set_weights(self, weights: List[float]) -> None:
+        """sets weights and updates the extend weights built from them.
+
+        see :func:`~quara.loss_function.weighted_relative_entropy.WeightedRelativeEntropy.set_weights`
+        """
+        super().set_weights(weights)
+        if self.on_prob_dists_q:
+            self._calc_extend_weights()
+
     def _calc_extend_weights(self) -> None:
         # calc the extend weights.
         # "extend weights" is a vector that expands the weight vector to fit the size of the probability distributions.
